@@ -213,6 +213,51 @@ def insertion_points(src, rng, count):
 NODE_CLASSES = {n for n in dir(ast) if isinstance(getattr(ast, n), type) and issubclass(getattr(ast, n), ast.AST)} | {"File", "Str", "Bytes"}
 
 
+def text_excerpts(R, rng, tier):
+    """The human-readable formats print the same numbered, verbatim rows (also when the source holds characters that
+    str.splitlines() would break a row at)."""
+    import climain
+    import re as _re
+    d = os.path.join(impl.scratch(), "c10t")
+    os.makedirs(d, exist_ok=True)
+    src = ("import subprocess\n\x0c\nassert zz_a  # page break above, \x0c inside\nzz_u = 'x\u2028y\x1cz\x85w'\nassert zz_u\n"
+           "subprocess.Popen(zz_c,\n    stdin=None,\n    shell=True)  # \x0b\nzz_last = 1\n")
+    f = os.path.join(d, "seps.py")
+    open(f, "w", encoding="utf-8").write(src)
+    lines = src.split("\n")
+    for fmt in ("txt", "screen"):
+        for n in (1, 3, 5):
+            out = os.path.join(d, "t.out")
+            r = climain.run_main(["-q", "-f", fmt, "-n", str(n)] + (["-o", out] if fmt == "txt" else []) + [f])
+            text = open(out, encoding="utf-8").read() if fmt == "txt" else _re.sub("\x1b\\[[0-9;]*m", "", r["stdout"])
+            R.case(("text-excerpt", fmt, n), nontrivial=True, sample={"format": fmt, "n": n, "exit": r["exit"]})
+            R.count("text-excerpts")
+            if r["exception"]:
+                R.violations.append({"what": "format %s: no report (%s)" % (fmt, r["exception"]), "input": {"src": src}, "observed": (r["traceback"] or "")[-300:], "signature": None})
+                continue
+            # the blocks between "Location:" lines hold the rows "<number>\t<text>"
+            blocks = text.split("Location:")[1:]
+            for b in blocks:
+                body = b.split("--------------------------------------------------")[0]
+                rows = body.split("\n")[1:]
+                rows = [x for x in rows if x.strip() != ""] if False else rows
+                while rows and rows[-1].strip() == "":
+                    rows.pop()
+                while rows and not _re.match(r"^\s*\d+\t", rows[0]):
+                    rows.pop(0)
+                nums = []
+                for row in rows:
+                    m = _re.match(r"^\s*(\d+)\t(.*)$", row, _re.S)
+                    if not m or int(m.group(1)) > len(lines) or lines[int(m.group(1)) - 1] != m.group(2):
+                        R.violations.append({"what": "format %s (-n %d): an excerpt row is not a numbered verbatim source line: %r" % (fmt, n, row[:60]),
+                                             "input": {"src": src}, "observed": body[:400], "signature": None})
+                        break
+                    nums.append(int(m.group(1)))
+                else:
+                    if nums and nums != list(range(nums[0], nums[0] + len(nums))):
+                        R.violations.append({"what": "format %s (-n %d): excerpt rows are not consecutive: %s" % (fmt, n, nums), "input": {"src": src}, "observed": body[:300], "signature": None})
+
+
 def tested_classes():
     mgr = impl.make_manager()
     cls = set()
@@ -317,6 +362,7 @@ def run(R, replay=None):
             shift_meta.append(inp)
             scan_progs.append({"src": new.encode("utf-8")})
 
+    text_excerpts(R, rng, R.tier)
     # ---- model vs implementation
     mm, br = core.unit_corr("From Bandit Require Import Engine.Excerpt.\n",
                             "fun x => get_code (fst x) (fst (snd x)) (fst (snd (snd x))) (fst (snd (snd (snd x)))) (snd (snd (snd (snd x))))",
